@@ -13,10 +13,13 @@
    functions choose the arm exactly like the Rust code
    (`number_of_nodes() > 20 && rayon::current_num_threads() > 1`).
 
-   Work items that can fail.  The closures handed to rayon `.unwrap()` the
-   per-source result (all_pairs*, multi_source) or index vectors (centrality):
-   an item may PANIC.  An item is therefore a function into [outcome]; rayon runs
-   it, and
+   Work items that can fail.  The closures handed to rayon index vectors and
+   `.unwrap()` lookups (centrality; the name conversions of dijkstra.rs): an item
+   may PANIC.  Since the repair of F22 the closures of all_pairs* / multi_source
+   RETURN the per-source `Result` (`?` / `.map(..)`) instead of `.unwrap()`ing it, and
+   the region is collected into `Result<Vec<_>, Error>`: an item may also return
+   `Err(e)`, which is a value of the error channel, not a panic ([gather_result_par]
+   below).  An item is therefore a function into [outcome]; rayon runs it, and
      - a sequential leaf folds its items in index order and stops at its first panic;
      - `rayon::join(a, b)` (every split of the indexed source is one, a = the lower
        indices): "If both closures panic, join() will panic with the panic value
@@ -113,25 +116,92 @@ Section Gather.
     | Some e => e
     | None => gather_par pi f xs
     end.
+
+  (* --- <indexed source>.into_par_iter().map(|x| f(x) /* : Result<Y, Error> */).collect::<Result<Vec<_>, Error>>()
+     (all_pairs dijkstra.rs:125, multi_source dijkstra.rs:377, after the repair of F22).
+     rayon 1.12 src/result.rs, `impl FromParallelIterator<Result<T, E>> for Result<C, E>`:
+         let saved_error = Mutex::new(None);
+         let collection = par_iter.map(ok(&saved_error)).while_some().collect();
+         match saved_error.into_inner().unwrap() { Some(error) => Err(error), None => Ok(collection) }
+     where `ok` maps `Ok(v)` to `Some(v)` and, on `Err(e)`, stores `e` IF NO ERROR IS STORED YET and yields
+     `None`; `while_some` raises its `full` flag at the first `None`, after which no further item is started.
+     Documented: "If there are multiple errors, the one returned is not deterministic."
+     The serial counterpart (std's `collect::<Result<Vec<_>, E>>()`) stops at the first `Err` in index order:
+     [gather_seq] = [omapM] with `Err k` as the error value.
+     On a schedule pi (the order in which the items are executed):
+       - the items run in that order up to and including the first one that returns `Err` ([started]);
+         its error is the one that is stored ([recorded_error]) — the first error in EXECUTION order,
+         not in index order;
+       - an item that ran may have panicked instead of returning: the panic unwinds through the region and
+         takes precedence over a returned value; among several, rayon::join's rule ([first_panic_from]: the
+         lowest index among the items that ran);
+       - otherwise every item returned `Ok` and the Vec holds the values in index order ([gather_par]).
+     [gather_abort] (the failing item executed first wins, whatever its kind of failure) remains the
+     pessimistic envelope of this region too: every outcome of [gather_result_par], and every outcome a
+     truly concurrent execution can produce, is the failure of SOME failing item. --- *)
+  Definition returns_err (o : outcome Y) : bool := match o with Err _ => true | _ => false end.
+  Definition panics (o : outcome Y) : bool := match o with Panic _ | OutOfFuel => true | _ => false end.
+
+  Fixpoint started (pi : list nat) (f : X -> outcome Y) (xs : list X) : list nat :=
+    match pi with
+    | [] => []
+    | i :: t =>
+      match nth_error xs i with
+      | Some x => if returns_err (f x) then [i] else i :: started t f xs
+      | None => i :: started t f xs
+      end
+    end.
+
+  Fixpoint recorded_error (pi : list nat) (f : X -> outcome Y) (xs : list X) : option errkind :=
+    match pi with
+    | [] => None
+    | i :: t =>
+      match nth_error xs i with
+      | Some x => match f x with Err k => Some k | _ => recorded_error t f xs end
+      | None => recorded_error t f xs
+      end
+    end.
+
+  (* the slots k, k+1, ... in index order: the first one whose item ran and panicked *)
+  Fixpoint first_panic_from (k : nat) (ran : list nat) (f : X -> outcome Y) (xs : list X)
+    : option (outcome (list Y)) :=
+    match xs with
+    | [] => None
+    | x :: t =>
+      if existsb (Nat.eqb k) ran && panics (f x) then Some (as_failure (f x))
+      else first_panic_from (S k) ran f t
+    end.
+
+  Definition gather_result_par (pi : list nat) (f : X -> outcome Y) (xs : list X) : outcome (list Y) :=
+    match first_panic_from 0 (started pi f xs) f xs with
+    | Some e => e
+    | None =>
+      match recorded_error pi f xs with
+      | Some k => Err k
+      | None => gather_par pi f xs
+      end
+    end.
 End Gather.
 
 (* which arm of `match parallel` runs: the serial one, or the rayon one under the schedule pi
    — with rayon::join's panic rule ([Rayon]) or under the pessimistic rule ([RayonAbort]) *)
 Inductive arm := Serial | Rayon (pi : list nat) | RayonAbort (pi : list nat).
 
-Definition gather {X Y} (a : arm) (f : X -> outcome Y) (xs : list X) : outcome (list Y) :=
+(* the region of all_pairs / multi_source: items returning `Result`, collected into `Result<Vec<_>, Error>` *)
+Definition gather_result {X Y} (a : arm) (f : X -> outcome Y) (xs : list X) : outcome (list Y) :=
   match a with
   | Serial => gather_seq f xs
-  | Rayon pi => gather_par pi f xs
+  | Rayon pi => gather_result_par pi f xs
   | RayonAbort pi => gather_abort pi f xs
   end.
 
 (* the two shapes in which the five functions use the region *)
 Section Shapes.
   Context {X Y B R : Type}.
-  (* (a) all_pairs / multi_source: gather, then post-process the vector sequentially *)
+  (* (a) all_pairs / multi_source: gather into `Result<Vec<_>, Error>`, `?`, then post-process the vector
+     sequentially *)
   Definition post_arm (a : arm) (f : X -> outcome Y) (post : list Y -> outcome R) (xs : list X) : outcome R :=
-    do ys <- gather a f xs; post ys.
+    do ys <- gather_result a f xs; post ys.
   (* (b) betweenness / closeness:
        Serial:  for x in xs { let y = f(x); combine(&mut acc, y) }
        Rayon:   let ys = xs.into_par_iter().map(f).collect(); for y in ys { combine(&mut acc, y) }
@@ -156,11 +226,12 @@ Section DijkstraArms.
   Definition arm_of (g : gstate) (threads : nat) (pi : list nat) : arm :=
     if parallel g threads then Rayon pi else Serial.
 
-  (* the closure of dijkstra.rs:362-376 (parallel) = :379-393 (serial) *)
+  (* the closure of dijkstra.rs:365-376 (parallel) = :380-391 (serial):
+     `single_source(graph, weighted, source.clone(), ..).map(|paths| (source.clone(), paths))` — a `Result`;
+     an `Err` of the per-source call is the item's `Err` (before the repair of F22: `.unwrap()`, a panic) *)
   Definition multi_source_item (g : gstate) (weighted : bool) (target : option T) (cutoff : option Q)
              (first_only with_paths : bool) (source : T) : outcome (T * list (T * spinfo T)) :=
-    do m <- unwrap_result "dijkstra.rs:376"
-              (Dijkstra.single_source teqb g weighted source target cutoff first_only with_paths);
+    do m <- Dijkstra.single_source teqb g weighted source target cutoff first_only with_paths;
     Ok (source, m).
 
   (* dijkstra.rs:331 multi_source *)
@@ -178,15 +249,17 @@ Section DijkstraArms.
              (sources : list T) (target : option T) (cutoff : option Q) (first_only with_paths : bool) :=
     multi_source_arm (arm_of g threads pi) g weighted sources target cutoff first_only with_paths.
 
-  (* the closure of dijkstra.rs:157-173 (all_pairs_iter) = :196-212 (all_pairs_par_iter) *)
+  (* the closure of dijkstra.rs:161-176 (all_pairs_iter) = :201-216 (all_pairs_par_iter):
+     `let ss_index = match can_use_basic {..}?; Ok((node_index, ss_index))` — a `Result`
+     (before the repair of F22: `.unwrap()`, a panic) *)
   Definition all_pairs_item (g : gstate) (weighted : bool) (target : option T) (ti : option nat)
              (cutoff : option Q) (first_only with_paths : bool) (node_index : nat)
     : outcome (nat * list (nat * spinfo nat)) :=
-    do r <- unwrap_result "dijkstra.rs:172"
-              (run_from_index g weighted node_index target ti cutoff first_only with_paths);
+    do r <- run_from_index g weighted node_index target ti cutoff first_only with_paths;
     Ok (node_index, r).
 
-  (* dijkstra.rs:140 all_pairs_iter (Serial) / :178 all_pairs_par_iter (Rayon), collected *)
+  (* dijkstra.rs:140 all_pairs_iter (Serial) / :178 all_pairs_par_iter (Rayon), collected by all_pairs
+     into `Result<Vec<_>, Error>` (:125 / :129) *)
   Definition all_pairs_iter_arm (a : arm) (g : gstate) (weighted : bool) (target : option T)
              (cutoff : option Q) (first_only with_paths : bool)
     : outcome (list (nat * list (nat * spinfo nat))) :=
@@ -194,8 +267,8 @@ Section DijkstraArms.
              | Some t => do i <- unwrap_result "dijkstra.rs:153" (get_node_index teqb g t); Ok (Some i)
              | None => Ok None
              end;
-    gather a (all_pairs_item g weighted target ti cutoff first_only with_paths)
-           (seq 0 (number_of_nodes g)).
+    gather_result a (all_pairs_item g weighted target ti cutoff first_only with_paths)
+                  (seq 0 (number_of_nodes g)).
 
   (* dijkstra.rs:100 all_pairs *)
   Definition all_pairs_arm (a : arm) (g : gstate) (weighted : bool) (target : option T)
